@@ -55,11 +55,15 @@ def cases(draw, max_chroms=3, max_bins=6):
         rows = [[r[0], r[1], r[2] + 0.25, *r[3:]] for r in rows]
     rows2 = draw(gen.pixels(n, symmetric, count=st.integers(1, 1000), extra_cols=[gen.DYADIC], max_nnz=30)) \
         if hist == "merge-commute" else None
+    agg_x = draw(st.sampled_from(["sum", "sum", "max", "mean"]))
+    cols = draw(st.sampled_from([None, None, ["count"], ["count", "x"]]))
+    if agg_x == "mean":
+        cols = ["count", "x"]       # the non-decomposable aggregate is only observable on a stored column
     return {"part": "coarsen", "bt": bt, "symmetric": symmetric, "rows": rows, "k": k,
             "chunksize": draw(st.sampled_from([1, 2, 3, 7, max(1, nnz), 10**6])),
             "nproc": draw(st.sampled_from([1] * 9 + [2, 3])),
-            "cols": draw(st.sampled_from([None, None, ["count"], ["count", "x"]])),
-            "agg_count": draw(st.sampled_from(["sum", "sum", "sum", "max"])), "agg_x": draw(st.sampled_from(["sum", "sum", "max", "mean"])),
+            "cols": cols,
+            "agg_count": draw(st.sampled_from(["sum", "sum", "sum", "max"])), "agg_x": agg_x,
             "history": hist, "k2": draw(st.integers(2, 4)), "rows2": rows2, "count_float": count_float,
             # reuse-uri: the SAME source URI is coarsened, re-created with another bin table and other pixels, and coarsened again
             "bt2": draw(gen.bin_tables(max_chroms=max_chroms, max_bins=max_bins)) if hist == "reuse-uri" else
